@@ -8,3 +8,4 @@ open Emboss.View
 #print axioms C01_alias_reads_target
 #print axioms C01_prefix_monotone_counterexample
 #print axioms C01_size_covers_present_fields
+#print axioms C01_ok_monotone_partial
